@@ -140,7 +140,8 @@ class Code15(Code13):
 
     def freeze(self):
         for field in "co_consts co_names co_varnames co_freevars co_cellvars".split():
-            val = getattr(self, field)
+            # Code15 itself (Python 1.5 .. 2.0) has no free or cell variables.
+            val = getattr(self, field, None)
             if isinstance(val, list):
                 setattr(self, field, tuple(val))
 
